@@ -556,7 +556,10 @@ func SetMessageSizeLimit(maxMessageSize uint32) {
 	} else {
 		messageSizeLimit = maxMessageSize
 	}
+	xfer.SetSizeLimit(messageSizeLimit)
 }
+
+func init() { xfer.SetSizeLimit(messageSizeLimit) }
 
 func checkMessageSize(messageSize uint32) error {
 	if messageSize > messageSizeLimit {
